@@ -291,6 +291,19 @@ pub fn compare(b: &Built, bytes: &[u8], define_components: bool) -> Result<u64, 
 }
 
 fn check(case: &GCase) -> Outcome {
+    let mut o = check_inner(case);
+    // exotic hand-shaped packages (bare top-level type / value / resource imports) are appended to failure
+    // signatures so that a recorded finding only covers compositions that register them
+    if let Verdict::Fail { sig, msg } = &o.verdict {
+        let exotic: Vec<&str> = SHAPED.iter().enumerate().filter(|(i, (n, _))| case.shaped & (1 << i) != 0 && ["shaped:types", "shaped:values", "shaped:resource"].contains(n)).map(|(_, (n, _))| n.trim_start_matches("shaped:")).collect();
+        if !exotic.is_empty() {
+            o.verdict = Verdict::Fail { sig: format!("{sig}:SH:{}", exotic.join(",")), msg: msg.clone() };
+        }
+    }
+    o
+}
+
+fn check_inner(case: &GCase) -> Outcome {
     let b = match execute(case) {
         Ok(b) => b,
         Err(BuildError::Generator(e)) => return Outcome::gen_invalid(e),
